@@ -36,21 +36,29 @@ class Defs:
     def __init__(self, body):
         self.body = body
         self.full = {}      # local -> [(bb, idx_or_None, node)]   node = stmt or call terminator
-        self.partial = {}   # local -> [(bb, idx, stmt)]  assignments through a projection of the local
+        self.partial = {}   # local -> [(bb, idx, stmt)]  assignments to a (non-deref) projection of the local
+        self.stores = {}    # local -> [(bb, idx, stmt)]  stores through a pointer held in the local
         for bb, blk in enumerate(body.blocks):
             for j, st in enumerate(blk['st']):
                 lhs = st.get('lhs')
                 if lhs is None:
                     continue
                 if lhs.get('p'):
-                    self.partial.setdefault(lhs['l'], []).append((bb, j, st))
+                    if '*' in lhs['p']:
+                        # a store through a pointer is not a definition of the pointer itself
+                        self.stores.setdefault(lhs['l'], []).append((bb, j, st))
+                    else:
+                        self.partial.setdefault(lhs['l'], []).append((bb, j, st))
                 else:
                     self.full.setdefault(lhs['l'], []).append((bb, j, st))
             t = blk['term']
             if t and t['k'] == 'call':
                 d = t['dest']
                 if d.get('p'):
-                    self.partial.setdefault(d['l'], []).append((bb, None, t))
+                    if '*' in d['p']:
+                        self.stores.setdefault(d['l'], []).append((bb, None, t))
+                    else:
+                        self.partial.setdefault(d['l'], []).append((bb, None, t))
                 else:
                     self.full.setdefault(d['l'], []).append((bb, None, t))
             if t and t['k'] == 'yield':
